@@ -136,3 +136,32 @@ func VerifBoltCorruptLast(t *BoltTransport) {
 		return nil
 	})
 }
+
+// VerifBoltValueIDs: for every stored entry, the id inside the stored JSON value ("<undecodable>" when it
+// does not decode) next to the id in its key.
+func VerifBoltValueIDs(t *BoltTransport) (keyIDs, valueIDs []string) {
+	_ = t.db.View(func(tx *bolt.Tx) error {
+		b := tx.Bucket([]byte(t.bucketName))
+		if b == nil {
+			return nil
+		}
+		c := b.Cursor()
+		for k, v := c.First(); k != nil; k, v = c.Next() {
+			keyIDs = append(keyIDs, string(k[8:]))
+			var u Update
+			if err := json.Unmarshal(v, &u); err != nil {
+				valueIDs = append(valueIDs, "<undecodable>")
+			} else {
+				valueIDs = append(valueIDs, u.ID)
+			}
+		}
+
+		return nil
+	})
+
+	return
+}
+
+// VerifSubPending: updates waiting in the subscriber's buffer and live queue (read while every other
+// thread is parked; no side effect).
+func VerifSubPending(s *LocalSubscriber) int { return len(s.out) + len(s.liveQueue) }
